@@ -14,7 +14,7 @@ from .. import astutil as au
 from ..tables import rule, TIME_CARRIERS
 from . import analysis
 
-rule("C19.a", "every interval-membership test over time points is half open (>= start and < end)", floor=4, props=["C19", "C08"])
+rule("C19.a", "every interval-membership test over time points is half open (>= start and < end)", floor=4, props=["C19", "C08", "C20"])
 rule("C19.b", "the overlap guard precedes the assignment into the grid (overlapping intervals are rejected, not overwritten)", floor=1)
 rule("C19.c", "a sub-grid takes each per-step attribute from the same attribute of the reference grid through one selector; the "
               "coarse grid is built from consecutive pairs of one date range", floor=8)
